@@ -53,16 +53,19 @@ func VerifC18Etcd() {
 	s := New(rec, zzmodel.NoMetrics{}, peers)
 	ctx := context.Background()
 	key := []byte("/r/a")
+	// request fields a handler might (wrongly) take for a reason not to ask the leader
+	rev, limit, val := zzverif.I64("rev"), zzverif.I64("limit"), zzverif.Bytes("val", 1)
 	switch zzverif.Choose("request", 7) {
 	case 0, 1, 2: // the three write shapes
 		var txn *etcdserverpb.TxnRequest
 		switch zzverif.Choose("shape", 3) {
 		case 0:
-			txn = &etcdserverpb.TxnRequest{Compare: []*etcdserverpb.Compare{vCmpMod(key, 0)}, Success: []*etcdserverpb.RequestOp{vOpPut(key, []byte("v"))}}
+			txn = &etcdserverpb.TxnRequest{Compare: []*etcdserverpb.Compare{vCmpMod(key, 0)}, Success: []*etcdserverpb.RequestOp{vOpPut(key, val)}}
 		case 1:
-			txn = &etcdserverpb.TxnRequest{Compare: []*etcdserverpb.Compare{vCmpMod(key, 7)}, Success: []*etcdserverpb.RequestOp{vOpPut(key, []byte("v"))}, Failure: []*etcdserverpb.RequestOp{vOpGet(key)}}
+			zzverif.Assume(rev != 0)
+			txn = &etcdserverpb.TxnRequest{Compare: []*etcdserverpb.Compare{vCmpMod(key, rev)}, Success: []*etcdserverpb.RequestOp{vOpPut(key, val)}, Failure: []*etcdserverpb.RequestOp{vOpGet(key)}}
 		default:
-			txn = &etcdserverpb.TxnRequest{Compare: []*etcdserverpb.Compare{vCmpMod(key, 7)}, Success: []*etcdserverpb.RequestOp{vOpDel(key)}, Failure: []*etcdserverpb.RequestOp{vOpGet(key)}}
+			txn = &etcdserverpb.TxnRequest{Compare: []*etcdserverpb.Compare{vCmpMod(key, rev)}, Success: []*etcdserverpb.RequestOp{vOpDel(key)}, Failure: []*etcdserverpb.RequestOp{vOpGet(key)}}
 		}
 		_, err := s.Txn(ctx, txn)
 		if !peers.Leader {
@@ -79,7 +82,8 @@ func VerifC18Etcd() {
 			zzverif.Cover("write-applied")
 		}
 	case 3, 4, 5: // get, list, count
-		r := &etcdserverpb.RangeRequest{Key: key}
+		r := &etcdserverpb.RangeRequest{Key: key, Revision: rev, Limit: limit}
+		zzverif.Assume(rev != GetPartitionMagic) // the partition-listing escape hatch is the case below
 		switch zzverif.Choose("read", 4) {
 		case 1:
 			r.RangeEnd = []byte("/r/z")
@@ -101,9 +105,20 @@ func VerifC18Etcd() {
 		ws := &vWatchStream{ctx: ctx, reqs: []*etcdserverpb.WatchRequest{{RequestUnion: &etcdserverpb.WatchRequest_CreateRequest{
 			CreateRequest: &etcdserverpb.WatchCreateRequest{Key: []byte("/r/"), StartRevision: zzverif.I64("start")}}}}}
 		start := ws.reqs[0].GetCreateRequest().StartRevision
-		zzverif.Assume(start >= 0) // negative start revisions are streamed range reads
 		s.Watch(ws)
 		zzverif.WaitIdle()
+		if start < 0 {
+			// a negative start revision is a streamed range read: a read like any other
+			zzverif.Assert(rec.NWatch == 0, "a streamed range read is not a watch")
+			zzverif.Assert(rec.UnsyncedReads == 0, "a streamed read reaches the backend only after the leader's revision was adopted")
+			if peers.SyncErr != nil {
+				zzverif.Assert(rec.NRead == 0, "if the leader cannot be reached the streamed read fails without touching the backend")
+				zzverif.Cover("stream-refused")
+			} else if rec.NRead == 1 {
+				zzverif.Cover("stream-served")
+			}
+			return
+		}
 		if !peers.Leader {
 			zzverif.Assert(rec.NWatch == 0, "a follower never serves a watch from its own event history")
 			if peers.Proxy {
